@@ -1,7 +1,8 @@
 """C17 — nsqadmin state-changing actions require an admin identity (engine E7, DESIGN.md §5 C17)."""
 import ipaddress
 import os
-from framework import REPO
+import re
+from framework import REPO, ROOT
 
 TIE = ["Nsq.Tie.AdminGate"]
 PROPS = ["Nsq.Props.C17"]
@@ -133,7 +134,33 @@ def fanout_missing(f, reqs):
 
 
 def cidr_oracle(op, impl):
-    """Independent check of the CIDR gate on literal addresses (python ipaddress, not Go's net)."""
+    """Independent check of the CIDR gate on the literal client address and network (python's ipaddress,
+    not Go's net): a parsable address outside the network must get 403 and write nothing; inside, never 403."""
+    f = parse_op(op)
+    if not f["segs"] or f["segs"][0] != "config" or "xcidr" not in f:
+        return None
+    cidr, remote = unhex(f["xcidr"]), unhex(f["xremote"])
+    if not cidr:
+        return None
+    a = impl.split()
+    status, cfgw = int(a[0]), a[3]
+    m = re.match(r"^\[([0-9a-fA-F:.]+)\]:(\d+)$", remote) or re.match(r"^([0-9.]+):(\d+)$", remote)
+    if not m:
+        return None  # not a literal host:port — left to the fact-based check
+    try:
+        ip = ipaddress.ip_address(m.group(1))
+        net = ipaddress.ip_network(cidr, strict=False)
+    except ValueError:
+        return None
+    if ip.version == 6 and ip.ipv4_mapped is not None and net.version == 4:
+        ip = ip.ipv4_mapped   # Go compares 4-in-6 addresses as IPv4
+    inside = ip.version == net.version and ip in net
+    if not inside and (status != 403 or cfgw != "0"):
+        return "%s /config/%s from %s, outside %s, answered %d (config written: %s)" % (f["m"], f["segs"][-1], remote, cidr, status, cfgw)
+    if inside and status == 403:
+        return "%s /config/%s from %s, inside %s, answered 403" % (f["m"], f["segs"][-1], remote, cidr)
+    if inside != (f.get("innet") == "1"):
+        return "harness fact innet=%s disagrees with %s in %s" % (f.get("innet"), remote, cidr)
     return None
 
 
@@ -177,6 +204,21 @@ def run(ctx):
     with open(routes_path, "w") as fh:
         fh.write(routes.strip())
     ctx.corr["routes"] = routes.strip().count(";") + 1 if routes.strip() else 0
+    # corpus first: committed requests with the answer the real server gave when they were recorded; the model
+    # (over the table regenerated now) must still give it and the property must hold on it
+    cp = os.path.join(ROOT, "corpus", "C17", "gate_regressions.ops")
+    if os.path.exists(cp) and not ctx.replay_in:
+        cops = open(cp).read().splitlines()
+        cexp = open(cp[:-4] + ".expect").read().splitlines()
+        rc, mout = ctx.driver("e7", stdin_path=cp)
+        for o, want, got in zip(cops, cexp, mout.splitlines() + [""] * len(cops)):
+            ctx.count_case(o)
+            if property_fails_on(o, want):
+                ctx.broken_ties.append("corpus line violates the property: " + o[:80])
+            if want != got:
+                ctx.log("corpus regression: `%s`\n  recorded=%s\n     model=%s" % (o[:300], want, got))
+                corr_broken.append("corpus C17/gate_regressions line")
+        ctx.corr["corpus_lines"] = len(cops)
     binp = ctx.go_test_binary("nsqadmin", ["e7/gate_test.go"], "e7gate")
     if not binp:
         ctx.broken_ties.append("harness e7/gate_test.go does not compile against the current tree")
@@ -222,7 +264,7 @@ def run(ctx):
                 ctx.add_sample({"op": o[:300], "impl": i[:300]})
             # direct oracle on every implementation answer
             for idx, (o, i) in enumerate(zip(ops, impl)):
-                bad = property_fails_on(o, i)
+                bad = property_fails_on(o, i) or cidr_oracle(o, i)
                 if bad:
                     f = parse_op(o)
                     key = "gate:%s:/%s" % (f["m"], "/".join(pattern_of(f["segs"])))
